@@ -430,7 +430,7 @@ package hotline
 // client may omit the comment part), read in one piece from the connection and parsed from that
 // buffer; nothing else is read between the two fork headers.
 //@ func (ffo *flattenedFileObject) ReadFrom(r io.Reader) (n int64, err error)
-//@   property C09 C10
+//@   property C01 C09 C10
 //@   before call io.ReadFull#1 assert same(arg0, r) && len(arg1) == u32(bytes(ffo.FlatFileInformationForkHeader.DataSize))
 //@   before any call io.ReadFull#2 assert false
 //@   before call bytes.NewReader assert same(arg0, callarg("io.ReadFull#1", 1))
@@ -535,6 +535,11 @@ package hotline
 //@   before any call (io.ReadWriteCloser).Read assert false
 //@   before call (*bufio.Scanner).Bytes assert arg0 == callres("bufio.NewScanner#1")
 //@   before call (*bufio.Scanner).Scan assert arg0 == callres("bufio.NewScanner#1")
+// what the decoder gets is a private copy of the token: the scanner re-uses its buffer for the next
+// read, and handlers keep field data (names, paths) beyond that
+//@   before call (*hotline.Transaction).Write assert fresh(arg1)
+//@   before call (*hotline.Transaction).Write#1 assert disjoint(arg1, callres("(*bufio.Scanner).Bytes#1"))
+//@   before call (*hotline.Transaction).Write#2 assert disjoint(arg1, callres("(*bufio.Scanner).Bytes#3"))
 
 // C03: the session loop makes progress or ends: every iteration that goes round again has handed
 // a decoded transaction to its handler -- a token that cannot be decoded (a corrupted length field
